@@ -200,6 +200,7 @@ fn verdict_name(ex: &Execution) -> &'static str {
         Panic(..) => "panic",
         Fault(..) => "fault",
         SoloBound(..) => "solo_bound",
+        TryOpSpins(..) => "try_op_spins",
         SoloBlocked(..) => "solo_blocked",
     }
 }
